@@ -138,47 +138,52 @@ def run(ctx, config):
                     if not inside and not (el.e[0] == "call" and callee_name(el.e) == "EVUTIL_TOLOWER_"):
                         raw.append(el)
         r3.inst((fname, "lowered"), {"fn": fname, "lowered_operands": lowered})
-        if lowered.get(s1, 0) < 1 or lowered.get(s2, 0) < 1:
-            r3.bad("K7:%s:operand-not-lowered" % fname, "%s:%d" % (f.file, f.line), fname,
-                   "not both strings pass through EVUTIL_TOLOWER_ (%s)" % lowered)
-        for el in raw:
-            r3.bad("K7:%s:raw-byte-compare" % fname, el.where(), fname, "byte of an argument string used without EVUTIL_TOLOWER_: %s" % show(el.e))
-        # outcomes: under (a < b) true -> negative constant; (a > b) true -> positive; (a == 0) -> 0
-        outcomes = {}
-        for ret in f.returns():
-            v = strip(ret.e[1])
-            if not is_e(v, "int"):
-                r3.brk("%s: non-constant return" % fname)
-                continue
-            gs = f.guards_at(ret.bid)
-            # the innermost comparison guard
-            lab = None
-            for cond, truth, b in gs:
-                c = strip(cond)
-                if is_e(c, "bin") and c[1] in ("<", ">", "==") and truth:
-                    a, bb = strip(c[2]), strip(c[3])
-                    if is_e(a, "var") and is_e(bb, "var"):
-                        lab = c[1]
-                    elif c[1] == "==" and is_e(bb, "int") and bb[1] == 0:
-                        lab = "nul"
-            outcomes.setdefault(lab, set()).add(v[1])
-        r3.inst((fname, "outcomes"), {"fn": fname, "outcomes": {str(k): sorted(v) for k, v in outcomes.items()}})
-        ok = (all(x < 0 for x in outcomes.get("<", [1])) and all(x > 0 for x in outcomes.get(">", [-1]))
-              and outcomes.get("nul") == {0} and "<" in outcomes and ">" in outcomes)
-        if not ok:
-            r3.bad("K4:%s:outcome-signs" % fname, "%s:%d" % (f.file, f.line), fname,
-                   "outcomes are not (less -> negative, greater -> positive, both NUL -> 0): %s" % {str(k): sorted(v) for k, v in outcomes.items()})
-        if fname.endswith("ncasecmp"):
-            n = f.params[2][0]
-            loops = [b for b in f.branch_blocks() if b.term["k"] in ("while", "for", "do")]
-            bounded = any(any(is_e(sx, "var") and sx[1] == n for sx in walk(b.term["cond"])) for b in loops)
-            dec = any(is_e(strip(lhs), "var") and strip(lhs)[1] == n and op == "--" for el, lhs, op, rhs in f.stores())
-            r3.inst((fname, "bound"), {"fn": fname, "loop_tests_n": bounded, "n_decremented": dec, "fallthrough": sorted(outcomes.get(None, []))})
-            if not (bounded and dec):
-                r3.bad("K4:%s:not-bounded-by-n" % fname, "%s:%d" % (f.file, f.line), fname, "the comparison loop is not bounded by n")
-            if outcomes.get(None) != {0}:
-                r3.bad("K4:%s:fallthrough-not-zero" % fname, "%s:%d" % (f.file, f.line), fname,
-                       "after n equal bytes the result must be 0, is %s" % sorted(outcomes.get(None, [])))
+        # (informational only: how the folding is spelled is not the property - the outcome evaluated below is)
+        r3.notes.append("%s: operands lowered through EVUTIL_TOLOWER_: %s; raw uses: %d" % (fname, lowered, len(raw)))
+        # the outcome: decided by evaluating the function on pairs of strings (and lengths), not by the spelling of its comparisons
+        from ..prog import PStr
+        from ..interp import run_all, normx
+        S = [b"", b"a", b"A", b"b", b"ab", b"aB", b"a[", b"a{", b"[", b"{", b"Z", b"z", b"@", b"`", b"\xc9", b"\xe9", b"abc", b"abd", b"ABC"]
+
+        def low(t):
+            return bytes((c + 32) if 65 <= c <= 90 else c for c in t)
+        nb = 0
+        ns = (0, 1, 2, 5) if fname.endswith("ncasecmp") else (None,)
+        for a_ in S:
+            for b_ in S:
+                for n_ in ns:
+                    env = {"#typed": 1, s1: PStr(a_), s2: PStr(b_)}
+                    if n_ is not None:
+                        env[f.params[2][0]] = n_
+                    got = set()
+                    for o in run_all(f, (f.entry, 0), env, lambda el: False, P, lambda el, e_: ("inline" if callee_name(el.e) == "EVUTIL_TOLOWER_" else None), max_steps=600):
+                        if o.kind == "exit" and o.why == "noreturn":
+                            continue
+                        if o.kind != "ret":
+                            r3.brk("%s(%r, %r): %s %s" % (fname, a_, b_, o.kind, o.why))
+                            break
+                        try:
+                            v = tevalx(normx(o.at.e[1]), o.env, P, f)
+                            got.add((v > 0) - (v < 0))
+                        except EvalError as ex:
+                            r3.brk("%s: %s" % (fname, ex))
+                            break
+                    la, lb = low(a_), low(b_)
+                    if n_ is not None:
+                        la, lb = la[:n_], lb[:n_]
+                    r3.inst((fname, a_, b_, n_), {"fn": fname, "s1": a_.decode("latin-1"), "s2": b_.decode("latin-1"), "n": n_, "sign": sorted(got)} if nb < 3 and a_ == b"aB" else None)
+                    if not got:
+                        continue
+                    if la == lb:
+                        okv = got == {0}
+                    elif max(la + lb) < 128:
+                        okv = got == {(la > lb) - (la < lb)}
+                    else:
+                        okv = 0 not in got          # bytes above 0x7f: different strings compare unequal (their order depends on the signedness of char and is not claimed)
+                    if not okv and nb < 6:
+                        nb += 1
+                        r3.bad("K4:%s:outcome" % fname, "%s:%d" % (f.file, f.line), fname, "%r vs %r%s: sign %s; ASCII case-insensitive comparison gives %s" % (
+                            a_, b_, "" if n_ is None else " (n=%d)" % n_, sorted(got), (la > lb) - (la < lb)))
     f = P.fn("evutil_ascii_strcasestr")
     lows = list(f.calls("EVUTIL_TOLOWER_"))
     ncmp = list(f.calls("evutil_ascii_strncasecmp"))
